@@ -245,7 +245,7 @@ def main(argv):
                 m = meta.get(cid, {})
                 prop_fail.append({"id": cid, "cfg": cfg, "input": inp, "observed_effects": sorted(iset), "predicted_by_tables": raw_pred,
                                   "entry": m.get("entry", ""), "kind": m.get("kind", ""), "form": m.get("form", ""), "pre": m.get("pre"), "script": m.get("script"),
-                                  "abs": m.get("abs"), "detail": m.get("detail"), "class": m.get("class")})
+                                  "abs": m.get("abs"), "argv": m.get("argv"), "detail": m.get("detail"), "class": m.get("class")})
             elif mset is not None and not iset <= mset:
                 corr_fail.append({"input": inp, "observed_effects": sorted(iset), "predicted_by_tables": raw_pred})
     c.coverage["compared"] = n
@@ -256,11 +256,14 @@ def main(argv):
     viol_by_entry = {}
     for f in prop_fail:
         key = (f["cfg"], f["entry"] if f["kind"] != "program" else f["script"])
+        if f.get("argv"):
+            key = (f["cfg"], "cmdline")          # one report per kind of command-line failure, smallest first
         viol_by_entry.setdefault(key, []).append(f)
     for key, fs in sorted(viol_by_entry.items())[:8]:
-        fs.sort(key=lambda f: (len(f["pre"] or []), f["form"] != "direct", len(f["script"] or "")))
+        fs.sort(key=lambda f: (len(f.get("argv") or []), len(f["pre"] or []), f["form"] != "direct", len(f["script"] or "")))
         f = fs[0]
-        c.violation({"kind": "a script in a sandboxed interpreter reached the outside world", "cfg": f["cfg"], "entry": f["entry"], "pre": f["pre"] or [],
+        c.violation({"kind": "a script in a sandboxed interpreter reached the outside world" + (" (cmd/zygo run with a sandbox flag: zygo %s)" % " ".join(f["argv"]) if f.get("argv") else ""),
+                     "argv": f.get("argv"), "cfg": f["cfg"], "entry": f["entry"], "pre": f["pre"] or [],
                      "script": f["script"], "abs": f["abs"], "observed_effects": f["observed_effects"], "predicted_by_tables": f["predicted_by_tables"],
                      "detail": f["detail"], "how_it_ended": f["class"], "similar_cases": len(fs),
                      "replay": "bin/check C08 --replay <this file>  (placeholders @SECRET@ @OUT@ @EXISTING@ @PWNED@ @DIR@ are canary paths created by the harness)"})
@@ -301,6 +304,15 @@ def main(argv):
             for nme in sorted(expect - got):
                 diffs.append("bin: %r is in the generated bindings but not defined in `zygo -sandbox`" % nme)
             c.coverage["binary_names_defined"] = len(got)
+        cd = rt.get("cmdline_name_diffs") or []
+        for d in cd:
+            if not d.get("probe_ok"):
+                diffs.append("bin: the name probe did not complete under `zygo %s`" % d["argv"])
+            for nme in d.get("unexpected") or []:
+                diffs.append("bin: %r is defined under `zygo %s` but not bound in a sandboxed interpreter" % (nme, d["argv"]))
+            for nme in d.get("missing") or []:
+                diffs.append("bin: %r is bound in a sandboxed interpreter but not defined under `zygo %s`" % (nme, d["argv"]))
+        c.coverage["cmdline_shapes_with_name_differences"] = len(cd)
         c.coverage["name_differences"] = len(diffs)
         fresh = [d for d in diffs if not any(repr(nm) in d for nm in reported)]
         if fresh:
